@@ -4,15 +4,19 @@ From Coq Require Import List Arith Bool NArith ZArith.
 From Pike Require Import Base.Bytes Model.MaxAge Model.MaxAgeSpec.
 Import ListNotations.
 
-Record ma_case := { ma_headers : headers; ma_impl : Z }.
+Record ma_case := { ma_headers : headers; ma_impl : Z;
+                    ma_method : bytes; ma_pass : bool  (* the request method of the case and what requestIsPass answered *) }.
 
-Definition ma_agrees (c : ma_case) : bool := Z.eqb (cache_max_age (ma_headers c)) (ma_impl c).
+Definition ma_agrees (c : ma_case) : bool :=
+  Z.eqb (cache_max_age (ma_headers c)) (ma_impl c) && Bool.eqb (request_is_pass (ma_method c)) (ma_pass c).
 
 (** monitor = the property's statement on the implementation's answer: a
     positive lifetime (the response would be stored for a GET) must be
     justified by the token-level reading of the headers *)
 Definition ma_monitor (c : ma_case) : bool :=
-  if (0 <? ma_impl c)%Z then spec_shareable m_get (ma_headers c) (ma_impl c) else true.
+  (if (0 <? ma_impl c)%Z then spec_shareable m_get (ma_headers c) (ma_impl c) else true)
+  (* only GET and HEAD requests enter the cache at all: every other method is forwarded *)
+  && (ma_pass c || beqb (ma_method c) m_get || beqb (ma_method c) m_head).
 
 Fixpoint failing {A} (f : A -> bool) (i : nat) (l : list A) : list nat :=
   match l with
